@@ -497,3 +497,54 @@ Definition ws_unchanged_but_cursor (W W' : ws) : Prop :=
 (* the state reached from a fresh wait set by history h *)
 Definition reach (cap maxev : N) (ord : check_order) (h : list op) : sys :=
   fst (run (sys_new cap maxev ord) h).
+
+(* ================= the deadline queue with time =================
+   iceoryx2-bb/posix/src/deadline_queue.rs with its clock: Attachment {index, period,
+   start_time}, previous_iteration, handle_missed_deadlines, duration_until_next_deadline,
+   missed_deadlines.  Times are numbers supplied by the history (the clock is monotone:
+   the theorems assume start_time <= now, which is what keeps the u128 subtractions of the
+   code from underflowing).  DeadlineQueue::reset (a notified deadline attachment) is not part
+   of this model: the timed scenarios never notify.
+   The user callbacks run inside handle_missed_deadlines, i.e. AFTER `now` was read and BEFORE
+   previous_iteration is written; the code writes the `now` the deadlines were evaluated
+   against (t_report).  Writing the time at which the callbacks have returned instead
+   (t_report_late) loses every boundary that falls between the two. *)
+Record tentry := { t_idx : N; t_period : N; t_start : N }.
+Record tdq := { t_att : list tentry; t_idc : N; t_prev : N }.
+
+Definition tdq_new (now : N) : tdq := {| t_att := []; t_idc := 0; t_prev := now |}.
+Definition t_set_prev (q : tdq) (p : N) : tdq := {| t_att := t_att q; t_idc := t_idc q; t_prev := p |}.
+
+(* add_deadline_interval at time now *)
+Definition t_add (q : tdq) (period now : N) : tdq :=
+  {| t_att := t_att q ++ [{| t_idx := t_idc q; t_period := period; t_start := now |}];
+     t_idc := t_idc q + 1; t_prev := t_prev q |}.
+
+(* the test of handle_missed_deadlines for one attachment *)
+Definition t_due (prev now : N) (e : tentry) : bool :=
+  if N.eqb (t_period e) 0 then true
+  else N.ltb ((N.max prev (t_start e) - t_start e) / t_period e) ((now - t_start e) / t_period e).
+
+Definition t_missed (q : tdq) (now : N) : list N := map t_idx (filter (t_due (t_prev q) now) (t_att q)).
+
+(* duration_until_next_deadline at time now: previous_iteration moves only when nothing is due *)
+Definition t_peek (q : tdq) (now : N) : tdq :=
+  if existsb (t_due (t_prev q) now) (t_att q) then q else t_set_prev q now.
+
+(* missed_deadlines at time now; the callbacks then run for d; previous_iteration := now *)
+Definition t_report (q : tdq) (now : N) : tdq * list N := (t_set_prev q now, t_missed q now).
+(* the refuted rule: previous_iteration := the time after the callbacks *)
+Definition t_report_late (q : tdq) (now d : N) : tdq * list N := (t_set_prev q (now + d), t_missed q now).
+
+(* one zero-timeout processing call of a wait set without triggered descriptors:
+   duration_until_next_deadline at time a, missed_deadlines at time b (a <= b) *)
+Definition t_call (q : tdq) (a b : N) : tdq * list N := t_report (t_peek q a) b.
+Definition t_call_late (q : tdq) (a b d : N) : tdq * list N := t_report_late (t_peek q a) b d.
+
+(* reference: the first period boundary after the previous evaluation has been reached *)
+Definition t_next_boundary (prev : N) (e : tentry) : N :=
+  t_start e + ((N.max prev (t_start e) - t_start e) / t_period e + 1) * t_period e.
+Definition t_spec_due (prev now : N) (e : tentry) : bool :=
+  if N.eqb (t_period e) 0 then true else N.leb (t_next_boundary prev e) now.
+Definition t_spec_missed (q : tdq) (now : N) : list N :=
+  map t_idx (filter (t_spec_due (t_prev q) now) (t_att q)).
